@@ -86,6 +86,12 @@ CLAIMS = {
         "technique": "contract-based deductive verification: abstract-mode path obligations over go/ssa, safety obligations discharged by SMT, unit and end-to-end replay",
         "design_ref": "DESIGN.md §6 C18",
     },
+    "C12": {
+        "level": "Sweep obligation: the set of map iterations in the module's non-test code equals the set declared in the contract files, so a new map iteration is a failed obligation; for each declared site either a mechanical SSA proof (keys only collected then sort.Strings; or the body only writes entries keyed by the iteration key) or an argued invariant listed as an assumption.",
+        "note": "Order-freedom of the four `argued` sites rests on invariants (one output per file name; unique schema ids) that are not machine-checked; external libraries' own determinism is assumed.",
+        "technique": "contract-based deductive verification: sweep + pattern obligations over go/ssa (no solver needed)",
+        "design_ref": "DESIGN.md §6 C12",
+    },
 }
 
-NOT_APPLICABLE = {p: PENDING for p in ["C08", "C10", "C12", "C13", "C16", "C20"]}
+NOT_APPLICABLE = {p: PENDING for p in ["C08", "C10", "C13", "C16", "C20"]}
